@@ -87,6 +87,14 @@ func (s *indexKVStore) GetValue(bucketID uint32, key []byte) (id uint32, ok bool
 
 // GetValues returns all values for bucket.
 func (s *indexKVStore) GetValues(bucketID uint32) (ids []uint32, err error) {
+	// find from memory
+	// NOTE: must read memory store before getting snapshot, data only moves from memory store to kv store(flush),
+	// if snapshot is got first, a flush which completes before reading memory store hides the flushed data.
+	s.lock.RLock()
+	ids = s.getValuesFromMem(s.mutable, bucketID, ids)
+	ids = s.getValuesFromMem(s.immutable, bucketID, ids)
+	s.lock.RUnlock()
+
 	snapshot := s.getSnapshot()
 
 	reader := v1.NewIndexKVReader(snapshot)
@@ -96,15 +104,8 @@ func (s *indexKVStore) GetValues(bucketID uint32) (ids []uint32, err error) {
 	}
 	if bucket != nil {
 		defer bucket.Release()
-		ids = bucket.GetValues()
+		ids = append(ids, bucket.GetValues()...)
 	}
-
-	// find from memory
-	s.lock.RLock()
-	defer s.lock.RUnlock()
-
-	ids = s.getValuesFromMem(s.mutable, bucketID, ids)
-	ids = s.getValuesFromMem(s.immutable, bucketID, ids)
 	return ids, nil
 }
 
@@ -159,6 +160,12 @@ func (s *indexKVStore) CollectKVs(bucketID uint32, values *roaring.Bitmap, resul
 		}
 	}
 
+	// NOTE: must read memory store before getting snapshot(same as GetValues)
+	s.lock.RLock()
+	collect(s.mutable)
+	collect(s.immutable)
+	s.lock.RUnlock()
+
 	snapshot := s.getSnapshot()
 
 	reader := v1.NewIndexKVReader(snapshot)
@@ -166,11 +173,6 @@ func (s *indexKVStore) CollectKVs(bucketID uint32, values *roaring.Bitmap, resul
 	if err != nil {
 		return err
 	}
-
-	s.lock.RLock()
-	collect(s.mutable)
-	collect(s.immutable)
-	s.lock.RUnlock()
 
 	if bucket != nil {
 		defer bucket.Release()
@@ -407,6 +409,12 @@ func (s *indexKVStore) GetValueFromMem(bucketID uint32, key []byte) (uint32, boo
 
 // FindValuesByRegexp returns values by regexp expr.
 func (s *indexKVStore) FindValuesByRegexp(bucketID uint32, rp *regexp.Regexp, ids []uint32) ([]uint32, error) {
+	// find from memory(NOTE: must read memory store before getting snapshot, same as GetValues)
+	s.lock.RLock()
+	ids = s.findValuesByRegexp(s.mutable, bucketID, rp, ids)
+	ids = s.findValuesByRegexp(s.immutable, bucketID, rp, ids)
+	s.lock.RUnlock()
+
 	snapshot := s.getSnapshot()
 
 	reader := v1.NewIndexKVReader(snapshot)
@@ -418,12 +426,6 @@ func (s *indexKVStore) FindValuesByRegexp(bucketID uint32, rp *regexp.Regexp, id
 		defer bucket.Release()
 		ids = bucket.FindValuesByRegexp(rp, ids)
 	}
-	// find from memory
-	s.lock.RLock()
-	defer s.lock.RUnlock()
-
-	ids = s.findValuesByRegexp(s.mutable, bucketID, rp, ids)
-	ids = s.findValuesByRegexp(s.immutable, bucketID, rp, ids)
 	return ids, nil
 }
 
@@ -473,6 +475,12 @@ func (s *indexKVStore) findValuesByLike(bucketID uint32,
 	prefix, subKey []byte,
 	check func(a, b []byte) bool, ids []uint32,
 ) ([]uint32, error) {
+	// NOTE: must read memory store before getting snapshot(same as GetValues)
+	s.lock.RLock()
+	ids = s.findValuesByLikeFormMem(s.mutable, bucketID, subKey, check, ids)
+	ids = s.findValuesByLikeFormMem(s.immutable, bucketID, subKey, check, ids)
+	s.lock.RUnlock()
+
 	snapshot := s.getSnapshot()
 	reader := v1.NewIndexKVReader(snapshot)
 	bucket, err := reader.GetBucket(bucketID)
@@ -483,12 +491,6 @@ func (s *indexKVStore) findValuesByLike(bucketID uint32,
 		defer bucket.Release()
 		ids = bucket.FindValuesByLike(prefix, subKey, check, ids)
 	}
-
-	s.lock.RLock()
-	defer s.lock.RUnlock()
-
-	ids = s.findValuesByLikeFormMem(s.mutable, bucketID, subKey, check, ids)
-	ids = s.findValuesByLikeFormMem(s.immutable, bucketID, subKey, check, ids)
 	return ids, nil
 }
 
